@@ -174,6 +174,45 @@ def part_b(c: Check):
     return total_writes, total_lines
 
 
+def part_c(c: Check):
+    """Stack level: the handlers dnssvc.NewHandlers wires for several servers in several groups."""
+    th = c.thorough
+    out, _ = c.go_harness("internal/dnssvc", "^TestVerifC15Stack$", files=["c15_test.go"],
+                          env={"VERIF_ROUNDS": 10 if th else 3, "VERIF_PER": 300 if th else 100}, timeout=1500)
+    ev = read_ndjson(out)
+    prof = [e for e in ev if e["attr"] == "profile"]
+    if len(ev) < 400 or len(set((e["grp"], e["srv"]) for e in prof)) < 7 or not any(e["logs"] for e in prof) \
+            or not any(not e["qlog"] for e in prof) or len(set(e["proto"] for e in prof if e["logs"])) < 4:
+        raise Undecided("stack harness vacuous: %d requests, %d attributed" % (len(ev), len(prof)))
+    vias = Counter(e["via"] for e in ev)
+    if not vias["dedicated-ip"] or not vias["dedicated-ip/deleted-profile"] or not vias["sni/deleted-profile"]:
+        raise Undecided("stack harness vacuous: ways of recognition %s" % dict(vias))
+    path = os.path.join(c.scratch, "c15c.ndjson")
+    write_ndjson(path, ev)
+    r = c.tlc_trace("TraceQueryLogStack", "TraceQueryLogStack.cfg", path, heap="2g")
+    if r.tuples("STUCK"):
+        raise Undecided("stack trace spec stuck")
+    bad = _dedup(r.tuples("NONCONF"))
+    c.cov["traces_validated_against_impl"] += len(ev) - len(bad)
+    for e in ev:
+        c.count_case(("C", e["grp"], e["srv"], e["attr"], e["qlog"], e["iplog"], e["via"], e["qt"], e["mode"], e["prof"]),
+                     nontrivial=e["attr"] == "profile")
+    c.sample({"part": "C", "request": {k: ev[0][k] for k in ("grp", "srv", "proto", "attr", "via", "logs", "bills")}})
+    seen = Counter()
+    for t in bad:
+        e = ev[int(t[0]) - 1]
+        clause = (re.findall(r'"([A-Za-z]+)', t[1]) or ["?"])[0]
+        seen[clause] += 1
+        if seen[clause] > 3:
+            continue
+        c.violation({"kind": "stack", "clause": clause, "attr": e["attr"]},
+                    "C15 %s: request %s type %d served by %s/%s (protocol %d, %s, attributed via %s to %s/%s qlog=%s iplog=%s) "
+                    "-> entries %s, billing %s" % (t[1], e["name"], e["qt"], e["grp"], e["srv"], e["proto"], e["mode"], e["via"],
+                                                   e["prof"], e["dev"], e["qlog"], e["iplog"], json.dumps(e["logs"]),
+                                                   json.dumps(e["bills"])), e)
+    return len(ev)
+
+
 def _toks(e):
     return [(t["t"], t["w"], t["k"]) if t["t"] == "obj" else t["t"] for t in e.get("toks", [])][:8]
 
@@ -192,12 +231,15 @@ def _dedup(tuples):
 def run(c: Check):
     nreq, nlogged = part_a(c)
     nwrites, nlines = part_b(c)
+    nstack = part_c(c)
     c.cov["rule"] = (
         "part A: a case is one DNS request through ratelimitmw -> mainmw -> real querylog.FileSystem (%d requests, "
         "%d logged); distinct by (attribution, flags, fate and its kind, filter outcome, protocol, location, qtype, "
         "blocking mode, upstream rcode, phase); non-trivial = attributed to a profile or not plainly processed.  "
         "part B: a case is one concurrent run; evaluations count every write(2) on the log descriptor (%d) and "
-        "every line read back (%d)" % (nreq, nlogged, nwrites, nlines))
+        "every line read back (%d).  part C: a case is one request through the handler that dnssvc.NewHandlers built "
+        "for one of 8 servers (5 protocols) in 2 server groups, sequentially and 8 at a time (%d requests), with "
+        "recording query-log and billing fakes" % (nreq, nlogged, nwrites, nlines, nstack))
     c.assumptions += [
         "the filter, upstream, device finder and GeoIP database are scripted; ratelimitmw, mainmw, access, dnsmsg "
         "and querylog.FileSystem are the real code",
